@@ -1753,6 +1753,96 @@ def rule_r14(chk, p, t, rid="C04.R14"):
         r.guard(m.qualname, l)
 
 
+_LIKE_SELFTEST = """
+def good(state):
+    out = empty_like(state, dtype=float)
+    out[:3] = state[:3] * 0.5
+    return out
+
+def bad(rotation, state):
+    out = empty_like(state)
+    out[:3] = matmul(rotation, state[:3])
+    return out
+
+def placeholder(mask):
+    held = zeros_like(mask)
+    held = mask * 2.0
+    return held
+"""
+
+
+def _inherited_dtype_buffers(fn_node, params):
+    """[(local, creating call, first element-wise store)] for locals created by `*_like(<view of a parameter>)` WITHOUT a
+    dtype and then filled element-wise: the buffer has the caller's dtype (int64 for whole numbers, float32 ...)."""
+    from rsa.inplace import aliases_of, view_root
+
+    al = aliases_of(fn_node, params)
+    out, ok = [], []
+    for n in walk_no_nested(fn_node):
+        if not (isinstance(n, (ast.Assign, ast.AnnAssign)) and n.value is not None and isinstance(n.value, ast.Call)):
+            continue
+        c = n.value
+        if call_name(c) not in ("empty_like", "zeros_like", "ones_like", "full_like") or not c.args:
+            continue
+        tg = n.targets[0] if isinstance(n, ast.Assign) else n.target
+        if not isinstance(tg, ast.Name):
+            continue
+        root = view_root(c.args[0])
+        if root is None or al.get(root) not in params:
+            continue
+        dtype = next((k.value for k in c.keywords if k.arg == "dtype"), None)
+        if dtype is None and len(c.args) >= 2 and call_name(c) != "full_like":
+            dtype = c.args[1]
+        stores = [
+            m
+            for m in walk_no_nested(fn_node)
+            if isinstance(m, (ast.Assign, ast.AugAssign))
+            for x in (m.targets if isinstance(m, ast.Assign) else [m.target])
+            if isinstance(x, ast.Subscript) and view_root(x) == tg.id
+        ]
+        if not stores:
+            continue
+        if dtype is not None and unparse(dtype) in ("float", "float64", "np.float64", "numpy.float64", "double", "'float64'", "'float'"):
+            ok.append((tg.id, c))
+        elif dtype is None:
+            out.append((tg.id, c, stores[0]))
+    return out, ok
+
+
+def rule_r15(chk, p, t, rid="C04.R15"):
+    r = chk.rule(
+        rid,
+        "converted states are computed in floating point whatever dtype the caller's array has",
+        2,
+        "a frame conversion is a real-valued map: handed whole numbers (an integer-dtype array: a unit impulse, a "
+        "whole-kilometre offset, a state read from JSON) it must give the same result as for the equal floats.  numpy's "
+        "`empty_like / zeros_like / ones_like / full_like(x)` inherit the dtype of x, and an element-wise store into an "
+        "integer buffer truncates silently - so in physics/ and dynamics/ a buffer created `*_like` a (view of a) "
+        "PARAMETER and then filled element-wise carries an explicit float dtype (the two derivative buffers do: "
+        "`empty_like(state, dtype=float)`).  A `*_like` value that is only ever re-bound whole is a placeholder and exempt",
+        "the values stored",
+    )
+    # the rule's own positive / negative examples (its expected count on the tree is zero violations)
+    st = ast.parse(_LIKE_SELFTEST)
+    got = {f.name: _inherited_dtype_buffers(f, [a.arg for a in f.args.args]) for f in st.body if isinstance(f, ast.FunctionDef)}
+    if not (len(got["bad"][0]) == 1 and not got["good"][0] and len(got["good"][1]) == 1 and not got["placeholder"][0] and not got["placeholder"][1]):
+        r.error("selftest", f"the embedded examples are not classified as expected: {got}")
+    n = 0
+    for fi in sorted(p.all_functions(include_nested=True), key=lambda f: f.qualname):
+        if not fi.module.name.startswith(("resonaate.physics", "resonaate.dynamics")):
+            continue
+        if True:
+            bad, ok = _inherited_dtype_buffers(fi.node, [x for x in fi.params if x not in ("self", "cls")])
+            for name, c in ok:
+                n += 1
+                r.ok(f"{fi.qualname}:{name}", f"`{unparse(c)}`", fi.loc(c))
+            for name, c, store in bad:
+                n += 1
+                r.violation(f"{fi.qualname}:{name}", f"inherited-dtype:{fi.name}:{name}", f"`{name} = {unparse(c)}` takes the dtype of the caller's array and `{unparse(store)[:60]}` stores computed values into it: for an integer-dtype input (whole numbers are legal coordinates) every component is truncated toward zero, for float32 rounded - the conversion is no longer the same map as for the equal float64 input", fi.loc(c))
+    if n < 2:
+        r.error("buffers", f"{n} `*_like(parameter)` buffers found in physics/ and dynamics/ (2 confirmed by hand: the derivative buffers)")
+
+
 def run(chk, p, t):
     chk.explanation = (
         "Static decision of structural necessary conditions of C04 by normal forms of rotation chains and matrix "
@@ -1764,7 +1854,7 @@ def run(chk, p, t):
         "geodetic closed form."
     )
     chk.assumptions += ["numpy matmul / dot / multi_dot are matrix products; .T is the transpose", "passive rotation convention of Vallado eq. 3-15 (cited by the module)"]
-    for fn in (rule_r1, rule_r2, rule_r3, rule_r4, rule_r5, rule_r6, rule_r7, rule_r8, rule_r9, rule_r10, rule_r11, rule_r12, rule_r13, rule_r14):
+    for fn in (rule_r1, rule_r2, rule_r3, rule_r4, rule_r5, rule_r6, rule_r7, rule_r8, rule_r9, rule_r10, rule_r11, rule_r12, rule_r13, rule_r14, rule_r15):
         rid = "C04.R" + fn.__name__.split("_r")[-1]
         if not chk.wants(rid):
             continue
